@@ -1,5 +1,5 @@
 """Verdicts, known findings, evidence files, exit codes (DESIGN.md §2.3)."""
-import json, os, sys, time
+import re, json, os, sys, time
 from .facts import VERIF, AnalysisBroken
 
 HOLDS, VIOLATED, UNKNOWN, INFO = 'HOLDS', 'VIOLATED', 'UNKNOWN', 'INFO'
@@ -63,13 +63,19 @@ def load_known():
     return json.load(open(p)).get('findings', [])
 
 
+def basekey(key):
+    """instance key without the preprocessor-configuration tag the thorough tier prefixes (`[HTP_DEBUG] ...`):
+    a finding is identified by the construct, whichever configuration it is seen in"""
+    return re.sub(r'^\[[A-Za-z0-9_,]+\] ', '', key)
+
+
 def finish(res, tier, seed, t0, level='other', technique='', extra=None, checker_cmd=''):
     """print the report, write evidence, return the exit code"""
     known = [k for k in load_known() if k['property'] == res.pid and k.get('status', 'known') == 'known']
     viol = [o for o in res.obs if o['status'] == VIOLATED]
     new, matched = [], []
     for o in viol:
-        k = next((k for k in known if k['rule'] == o['rule'] and k['key'] == o['key']), None)
+        k = next((k for k in known if k['rule'] == o['rule'] and k['key'] == basekey(o['key'])), None)
         (matched if k else new).append((o, k))
     os.makedirs(os.path.join(VERIF, 'work', 'replay'), exist_ok=True)
     os.makedirs(os.path.join(VERIF, 'evidence'), exist_ok=True)
@@ -79,7 +85,11 @@ def finish(res, tier, seed, t0, level='other', technique='', extra=None, checker
         print('   rule %-8s holds=%-4d violated=%-3d unknown=%-3d  %s' % (r, res.count(HOLDS, r), res.count(VIOLATED, r), res.count(UNKNOWN, r), t))
     for k, v in res.analysed.items():
         print('   analysed %s = %s' % (k, v))
+    printed = set()
     for o, k in matched:
+        if (o['rule'], basekey(o['key'])) in printed:
+            continue
+        printed.add((o['rule'], basekey(o['key'])))
         print('KNOWN-FINDING: property=%s %s [%s %s] %s' % (res.pid, k.get('what', o['msg']), o['rule'], o['key'], o['loc']))
     n = 0
     for o, _ in new:
@@ -88,7 +98,7 @@ def finish(res, tier, seed, t0, level='other', technique='', extra=None, checker
         json.dump(dict(property=res.pid, **o), open(path, 'w'), indent=1)
         print('   %s %s: %s  at %s' % (o['rule'], o['key'], o['msg'], o['loc']))
         print('VIOLATION property=%s replay=%s' % (res.pid, path))
-    stale = [k for k in known if not any(k['rule'] == o['rule'] and k['key'] == o['key'] for o in viol)]
+    stale = [k for k in known if not any(k['rule'] == o['rule'] and k['key'] == basekey(o['key']) for o in viol)]
     for k in stale:
         print('   note: known finding no longer reproduced on this tree: %s %s' % (k['rule'], k['key']))
     obligations = sum(1 for o in res.obs if o['status'] in (HOLDS, VIOLATED, UNKNOWN))
@@ -112,7 +122,8 @@ def finish(res, tier, seed, t0, level='other', technique='', extra=None, checker
         evaluations=obligations,
         distinct_nontrivial=len({(o['rule'], o['key']) for o in res.obs if o['status'] != INFO}),
         unknown=res.count(UNKNOWN), violated_known=len(matched), violated_new=len(new),
-        analysed=res.analysed, samples=samples, unknown_sites=unknowns[:200], reported_not_alarmed=infos[:200],
+        analysed=res.analysed, samples=samples,
+        obligation_list=[dict(rule=o['rule'], instance=o['key'], status=o['status'], at=o['loc']) for o in res.obs if o['status'] != INFO], unknown_sites=unknowns[:200], reported_not_alarmed=infos[:200],
         per_rule={r: dict(text=t, holds=res.count(HOLDS, r), violated=res.count(VIOLATED, r), unknown=res.count(UNKNOWN, r)) for r, t in res.rules.items()},
         checker_cmd=checker_cmd or './check %s --tier %s' % (res.pid, tier),
         trusted_base=['clang 14 front end and clang::CFG', 'tools/htpfacts.cc serialisation', 'sa/*.py rule engines'],
